@@ -201,7 +201,7 @@ impl<'tcx> Cx<'tcx> {
                     let _ = write!(s, ",\"int\":\"{}\"", bits);
                 }
             }
-        } else if !matches!(ty.kind(), ty::FnDef(..)) && !c.const_.has_non_region_param_compat() {
+        } else if !matches!(ty.kind(), ty::FnDef(..)) && (!c.const_.has_non_region_param_compat() || { use rustc_middle::ty::TypeVisitableExt; !ty.has_non_region_param() }) {
             if let Ok(v) = c.const_.eval(tcx, env, c.span) {
                 self.const_value(&mut s, v, ty, env);
             }
